@@ -18,7 +18,7 @@ DDL_COLS = "A INT, B VARCHAR, C NUMBER(10,2), D BOOLEAN, E DATE"
 
 POOL = {
     "int": [0, 1, 2, 3, 5, -1, 7, 100, None],
-    "str": ["a", "b", "ab", "", "z", "B", "a b", None],
+    "str": ["a", "b", "ab", "", "z", "B", "a b", "please call me", "grant x", None],
     "dec": [D("0.00"), D("1.50"), D("2.25"), D("-3.75"), D("10.00"), None],
     "bool": [True, False, None],
     "date": [datetime.date(2020, 1, 1), datetime.date(1969, 12, 31), datetime.date(2024, 2, 29), None],
